@@ -3,9 +3,10 @@ From Bfe Require Import lib.Val lib.Bytes model.Doh.
 Import ListNotations.
 Open Scope Z_scope.
 
-(* input : [method:B values:LB body:B limit:Z remote:B client:LB oracle]   (limit 0 = package default 8192)
+(* input : [method:B values:LB body:B limit:Z remote:LB client:LB oracle fail:Z]   (limit 0 = package default 8192;
+            remote/client: 0 or 1 address; fail = -1 or the number of body bytes delivered before the reader fails)
      oracle = [[buf res] ...], res = [] | [canon nExtra nOpt rcode]
-   output: VErr 1 rejected | VErr 2 does not pack |
+   output: VErr 1 rejected | VErr 2 does not pack | [nExtra nOpt canon []] (RemoteAddr nil: nothing appended) |
            [nExtra nOpt canonWithoutLastExtra [name rrtype udpsize ttl [[code family mask scope addr]]]] *)
 Definition dec_entry (v : val) : option (bytes * option parsed) :=
   match v with
@@ -13,31 +14,33 @@ Definition dec_entry (v : val) : option (bytes * option parsed) :=
   | VL [VB b; VL [VB c; VZ ne; VZ no; VZ rc]] => Some (b, Some (mkParsed c ne no rc))
   | _ => None
   end.
+Definition dec_opt_b (l : list val) : option (option bytes) :=
+  match l with [] => Some None | [VB c] => Some (Some c) | _ => None end.
 Definition dec_in (v : val) : option (oracle * dreq) :=
   match v with
-  | VL [VB m; vs; VB body; VZ lim; VB remote; VL cl; VL orc] =>
-    match as_LB vs, all_some (map dec_entry orc) with
-    | Some vals, Some o =>
+  | VL [VB m; vs; VB body; VZ lim; VL rm; VL cl; VL orc; VZ fl] =>
+    match as_LB vs, all_some (map dec_entry orc), dec_opt_b rm, dec_opt_b cl with
+    | Some vals, Some o, Some remote, Some client =>
       let limit := if lim =? 0 then default_max_post else lim in
-      if limit <=? 0 then None else
-      match cl with
-      | [] => Some (o, mkDreq m vals body limit remote None)
-      | [VB c] => Some (o, mkDreq m vals body limit remote (Some c))
-      | _ => None
-      end
-    | _, _ => None
+      if (limit <=? 0) || (fl <? -1) || (blen body <? fl) then None
+      else Some (o, mkDreq m vals body limit (if fl =? -1 then None else Some fl) remote client)
+    | _, _, _, _ => None
     end
   | _ => None
   end.
 (* well-formed input: decodes, and the client address is a 4- or 16-byte IP (what net.TCPAddr holds in the server) *)
 Definition valid_ip (ip : bytes) : bool := Nat.eqb (length ip) 4 || Nat.eqb (length ip) 16.
 Definition wf_C56 (i : val) : bool :=
-  match dec_in i with Some (_, q) => valid_ip (client_ip q) | None => false end.
+  match dec_in i with
+  | Some (_, q) => match client_ip q with Some cip => valid_ip cip | None => true end
+  | None => false
+  end.
 
 Definition enc_res (r : dres) : val :=
   match r with
   | Rejected => VErr 1
   | PackFails => VErr 2
+  | ForwardedPlain canon ne no => VL [VZ ne; VZ no; VB canon; VL []]
   | Forwarded canon ne no udp ttl e =>
     VL [VZ ne; VZ no; VB canon;
         VL [VB [46]; VZ 41; VZ udp; VZ ttl; VL [VL [VZ 8; VZ (e_family e); VZ (e_mask e); VZ (e_scope e); VB (e_addr e)]]]]
@@ -48,6 +51,7 @@ Definition dec_res (v : val) : option dres :=
   match v with
   | VL [VZ ne; VZ no; VB canon; VL [VB [46]; VZ 41; VZ udp; VZ ttl; VL [VL [VZ 8; VZ f; VZ m; VZ s; VB a]]]] =>
     Some (Forwarded canon ne no udp ttl (mkEcs f m s a))
+  | VL [VZ ne; VZ no; VB canon; VL []] => Some (ForwardedPlain canon ne no)
   | VL [VZ e; VZ c] =>
     if (e =? -1) && (c =? 1) then Some Rejected else if (e =? -1) && (c =? 2) then Some PackFails else None
   | _ => None
